@@ -1045,15 +1045,18 @@ func genC05(r *vf.Rand, mode, alg, enc string, zip bool, ser, shape string) c05C
 		}
 	} else if mode == "indep" && ser != "compact" {
 		cs.Placement = vf.Pick(r, []string{"protected", "protected", "unprotected", "recipient"})
-		switch r.Intn(8) {
-		case 0:
+	}
+	if mode == "indep" && ser != "compact" {
+		// independently of each other: a JWE AAD; `enc` in the shared unprotected header; no protected header at all
+		// (then AAD = "" or "." || BASE64URL(aad), RFC 7516 §5.1 step 14)
+		if r.Intn(4) == 0 {
 			cs.AAD = hex.EncodeToString(r.Bytes(r.Intn(30) + 1))
-		case 1:
+		}
+		if r.Intn(8) == 0 {
 			cs.EncPlace = "unprotected"
-		case 2:
-			if !zip && cs.Placement != "protected" && cs.Placement != "shared-protected" {
-				cs.NoProt = true
-			}
+		}
+		if r.Intn(5) == 0 && !zip && cs.Placement != "protected" && cs.Placement != "shared-protected" {
+			cs.NoProt = true
 		}
 	}
 	return cs
